@@ -542,11 +542,18 @@ def run(rep, ctx):
     d1.check(okd and all(not cf.cfg.before(outs[0], m) for m in muts) and all(cf.cfg.before(m, outs[0]) or cf.cfg.facts_at(m) for m in muts), "reported-after-clipping", short_loc(cf.loc),
              "grDomOut = grDom is assigned after intersect() and ClipWithFunctionValues()",
              "grDomOut is assigned before the graph domain is clipped for the last time: the caller narrows x only to the wider domain while the breakpoints cover the clipped one, so the PL function is extrapolated over part of the reported domain")
-    refs = {v["name"]: render(kids(v)[0]).replace(" ", "").replace("this->", "") for v in cf.walk() if v["k"] == "VarDecl" and kids(v)}
-    oke = len(ends) == 2 and refs.get("lbx") == "laPrm_.grDom.lbx" and refs.get("ubx") == "laPrm_.grDom.ubx" and \
-        sorted(render(kids(n)[1]) for n in ends) == ["lbx", "ubx"] and all(not cf.cfg.before(e_, m) for e_ in ends for m in muts)
-    lv = [v for v in cf.walk() if v["k"] == "VarDecl" and v.get("name") in ("lbx", "ubx")]
-    oke = oke and all((v.get("ct") or v.get("t") or "").rstrip().endswith("&") for v in lv)
+    # each end is read from the (clipped) graph domain itself: directly, or through a local that is a *reference* to it (a
+    # by-value copy taken before the clipping would be stale)
+    def end_source(n):
+        r_ = strip(kids(n)[1])
+        if r_["k"] == "DeclRefExpr" and r_.get("dk") == "Var":
+            vd_ = [v for v in cf.walk() if v["k"] == "VarDecl" and v.get("declId") == r_.get("declId") and kids(v)]
+            if len(vd_) == 1 and (vd_[0].get("ct") or vd_[0].get("t") or "").rstrip().endswith("&"):
+                return render(kids(vd_[0])[0]).replace(" ", "").replace("this->", "")
+            return "copy:" + render(r_)
+        return render(r_).replace(" ", "").replace("this->", "")
+    srcs_ = {render(kids(n)[0]).replace("this->", ""): end_source(n) for n in ends}
+    oke = len(ends) == 2 and srcs_ == {"lbx_": "laPrm_.grDom.lbx", "ubx_": "laPrm_.grDom.ubx"} and all(not cf.cfg.before(e_, m) for e_ in ends for m in muts)
     d1.check(oke, "ends-after-clipping", short_loc(cf.loc), "lbx_ / ubx_ are read from grDom (by reference) after the clipping")
     cw = one("ClipWithFunctionValues")
     par = cw.params[0] if cw.params else {}
